@@ -31,6 +31,7 @@ const maxVersion = ^uint64(0)
 var keyPool = [][]byte{{0x61}, {0x62}, {0x61, 0x62}, {0x62, 0x00}, {0x6d}, {0xff}}
 var prefixFreePool = [][]byte{{0x61}, {0x62}, {0x6d}, {0x63, 0x00}, {0xff}}
 var widePool = [][]byte{{0x61}, {0x63}, {0x64}, {0x65}, {0x66}, {0x6d}, {0x7a}}
+var bytePool = []uint64{1, 255, 256, 257, 300, 511, 512, 513, 514, 65535, 65536, 65537, 70000, 16777215, 16777216}
 var verPool = []uint64{0, 1, 2, 3, 5, 8, 13}
 
 type lsmEngine struct {
@@ -44,7 +45,7 @@ type lsmEngine struct {
 
 func (e *lsmEngine) Rule() string {
 	return e.prop + ": random set/del/setv/delv/get/getv sequences over 2-7 keys (prefix pairs, 00, ff; 30% of the cases a wider 7-key alphabet for nested table ranges) x 3 column families x a 7-value version pool (0 included) " +
-		"(values unique per write, ~12% above the value-log threshold) interleaved with rotate/flush/compact l0move|keep|drain/reopen " +
+		"(values unique per write, ~12% above the value-log threshold; ~35% of the ART cases use versions around the byte boundaries 2^8/2^9/2^16/2^24 on 1-2 keys with reads at v-1, v, v+1; ~15% of the cases use 1 KiB inline values and versions 10..400 on 1-2 keys so that tables span several SST blocks, with reads at every stored version and gap) interleaved with rotate/flush/compact l0move|keep|drain/reopen " +
 		"on a real DB (skiplist or ART memtable per case); non-trivial = a read of a (cf,key,version<=requested) that was written in " +
 		"two or more different memtable epochs (a rotate or reopen between the writes) before the read"
 }
@@ -82,9 +83,45 @@ func (e *lsmEngine) Gen(r *hlib.Rand, tier string) []string {
 		// engine therefore use a prefix-free alphabet; see the report of the lsm engine.
 		pool = prefixFreePool
 	}
+	// mode 1 (ART only, ~35% of the ART cases): versions around byte boundaries of the 8-byte
+	// version suffix, so that the radix tree branches inside the version bytes.
+	// mode 2 (~15%): 1 KiB inline values and versions 10..400 on one or two keys, so that a key's
+	// versions straddle several 8 KiB SST blocks; reads hit every stored version and every gap.
+	mode := 0
+	if eng == "art" && r.Chance(35) {
+		mode = 1
+	} else if r.Chance(15) {
+		mode = 2
+		ops = append(ops, "opts vthresh 1048576")
+	}
+	vers := verPool
+	switch mode {
+	case 1:
+		vers = bytePool
+	case 2:
+		vers = nil
+		for v := uint64(10); v <= 400; v += 10 {
+			vers = append(vers, v)
+		}
+	}
+	readVers := vers
+	if mode != 0 {
+		readVers = nil
+		for _, v := range vers {
+			readVers = append(readVers, v-1, v, v+1)
+		}
+		if mode == 2 {
+			for v := uint64(5); v <= 405; v += 10 {
+				readVers = append(readVers, v)
+			}
+		}
+	}
 	nkeys := 2 + r.Intn(len(pool)-1)
+	if mode != 0 {
+		nkeys = 1 + r.Intn(2)
+	}
 	keys := pool[:nkeys]
-	if r.Chance(30) {
+	if mode == 0 && r.Chance(30) {
 		// wider, prefix-free alphabet: tables with nested / staggered key ranges in one ingest shard
 		keys = widePool
 	}
@@ -92,8 +129,17 @@ func (e *lsmEngine) Gen(r *hlib.Rand, tier string) []string {
 	if e.prop == "C02" {
 		plainBias = 15
 	}
+	if mode != 0 {
+		plainBias = 5
+		if mode == 2 {
+			n += 40
+		}
+	}
 	val := func() string {
 		ctr++
+		if mode == 2 && r.Chance(85) {
+			return fmt.Sprintf("rep:%02x:%d", ctr%250+1, 900+r.Intn(200))
+		}
 		v := []byte{byte(ctr >> 8), byte(ctr)}
 		if r.Chance(12) {
 			v = append(v, bytes.Repeat([]byte{0xee}, 38)...)
@@ -121,7 +167,7 @@ func (e *lsmEngine) Gen(r *hlib.Rand, tier string) []string {
 					ops = append(ops, fmt.Sprintf("set %d %s %s", cf(), k, val()))
 				}
 			} else {
-				v := hlib.Pick(r, verPool)
+				v := hlib.Pick(r, vers)
 				if r.Chance(18) {
 					ops = append(ops, fmt.Sprintf("delv %d %s %d", cf(), k, v))
 				} else {
@@ -132,7 +178,7 @@ func (e *lsmEngine) Gen(r *hlib.Rand, tier string) []string {
 			if plain {
 				ops = append(ops, fmt.Sprintf("get %d %s", cf(), k))
 			} else {
-				v := hlib.Pick(r, verPool)
+				v := hlib.Pick(r, readVers)
 				if r.Chance(10) {
 					v = maxVersion
 				}
@@ -238,8 +284,9 @@ func (e *lsmEngine) execOnce(ops []string) (out []string, retErr error) {
 	defer os.RemoveAll(dir)
 	engine := "skiplist"
 	tableSz := int64(1 << 20)
+	vthresh := int64(32)
 	open := func() *NoKV.DB {
-		opt := &NoKV.Options{WorkDir: dir, MemTableSize: 1 << 20, SSTableMaxSz: tableSz, ValueThreshold: 32,
+		opt := &NoKV.Options{WorkDir: dir, MemTableSize: 1 << 20, SSTableMaxSz: tableSz, ValueThreshold: vthresh,
 			ValueLogFileSize: 1 << 20, MaxBatchCount: 1000, MaxBatchSize: 1 << 20, NumCompactors: 1,
 			NumLevelZeroTables: 1000, IngestCompactBatchSize: 2, MemTableEngine: NoKV.MemTableEngine(engine)}
 		db := NoKV.Open(opt)
@@ -294,6 +341,11 @@ func (e *lsmEngine) execOnce(ops []string) (out []string, retErr error) {
 				if f[1] == "tablesz" && db == nil {
 					n, _ := strconv.ParseInt(f[2], 10, 64)
 					tableSz = n
+					out[i] = "ok"
+				} else if f[1] == "vthresh" && db == nil {
+					// opts vthresh <bytes>: Options.ValueThreshold (values below it stay inline in the LSM)
+					n, _ := strconv.ParseInt(f[2], 10, 64)
+					vthresh = n
 					out[i] = "ok"
 				} else {
 					out[i] = "badop"
